@@ -966,6 +966,19 @@ def assemble(unit: dict, scratch: str, passname="A") -> Assembled:
                             old_spliced = re.sub(r"\b(%s)\b" % "|".join(re.escape(k) for k in rm_), lambda mo: rm_[mo.group(1)], old_spliced)
             body = splice_body(raw_body, sp, f["n_loops"], key, unit.get("diverge_spec", "ensures false"),
                                lost=lost_hints, old_body=old_spliced, rec=anchor_bodies)
+            ra = sp.opts.get("revert_args") if sp else None
+            if ra:
+                # strict units (`@fn f revert_args=a,b`): the named parameters of the function are handed on to its
+                # `panic_with_error!` sites, so that the unit's revert functions can state over them (and the ghost
+                # world) why THIS revert is justified; the default macro has no arm for the longer form
+                pos = 0
+                while True:
+                    mm = re.compile(r"\bpanic_with_error!\s*\(").search(body, pos)
+                    if not mm:
+                        break
+                    close = find_matching(body, mm.end() - 1)
+                    body = body[:close] + ", " + ", ".join(ra.split(",")) + body[close:]
+                    pos = close
             bc = (sp.opts.get("broadcast") if sp else None) or ",".join(unit.get("broadcast", []))
             if bc and bc != "none":
                 i = body.index("{")
